@@ -83,3 +83,8 @@ check("C18", "fault_enumeration",
       "Thorough starts the complete product of 16 mechanism subsets (two spellings of local) x TLS x tokenauth x 4 host selections x query key x keytab x {0,1,2} hosts from a file, plus environment and mixed delivery of the rule-relevant keys; quick starts every single-rule violation with its repaired twin by all three sources, sampled single / pairwise violations and valid configurations. A refusing configuration must exit non-zero without ever accepting a connection, any other must complete an HTTP exchange. For every key x length {0,1,31} x session store two instances from the same configuration must not accept each other's tokens / cookies while accepting their own; length 32 is the calibration.",
       "trusted: ports are never reused inside a lab run, so a listener belongs to the process under test; environment delivery restricted to keys with an unambiguous koanf spelling; PAATokenEncryptionKey has no observable use and is not probed",
       "DESIGN.md 4 C18")
+check("C19", "exploration",
+      "runtime monitoring by reference model: in-process round-trip and template oracles over the repository's RDP builder / parser with the lab's own line parser and line classifier, plus real /connect bodies of template configurations",
+      "Tens of thousands (thorough: about a million) of random assignments to all settings are rendered, checked line by line and re-read through NewBuilderFromFile (deep equality); templates written from assignments must be held and survive the download handler's overrides except the gateway-controlled settings, also through the real binary for user@domain / plain user sequences; parse(marshal(m)) == m for int/string maps; grammar-aware hostile texts (malformed lines, junk, lines up to 140 KB) must never panic the parser and must be rejected whenever the reference classifier finds a malformed line.",
+      "trusted: lab line parser / classifier; strings are free of CR/LF and outer blanks as the quantifier says",
+      "DESIGN.md 4 C19")
